@@ -244,24 +244,53 @@ NEST = [True]
 
 
 def _sym_change(proj, i, depth=0):
-    """a solver-chosen change with symbolic contents; returns (change, descriptor)"""
+    """a solver-chosen change with symbolic contents; returns (change, recipe) - the recipe is a plain
+    description from which harness.c12_history_plain rebuilds the same change on un-instrumented rope"""
     kind = choose("hk%d_%d" % (depth, i), 5 if (depth == 0 and NEST[0]) else 4)
     f = _FILES[choose("hf%d_%d" % (depth, i), len(_FILES))]
     if kind == 0:
         new = sym_str("hn%d_%d" % (depth, i), choose("hl%d_%d" % (depth, i), 2), ranges=((10, 10), (36, 36), (49, 49), (0xE9, 0xE9)))
         old = "a" if choose("hh%d_%d" % (depth, i), 2) else None
-        return _change.ChangeContents(proj.get_file(f), new, old)
+        return _change.ChangeContents(proj.get_file(f), new, old), ["contents", f, new, old]
     if kind == 1:
         g = _FILES[choose("hg%d_%d" % (depth, i), len(_FILES))]
-        return _change.MoveResource(proj.get_file(f), g, exact=True)
+        return _change.MoveResource(proj.get_file(f), g, exact=True), ["move", f, g]
     if kind == 2:
-        return _change.CreateResource(proj.get_file(f) if choose("hd%d_%d" % (depth, i), 2) else proj.get_folder("d"))
+        # plain CreateResource on a file / on a folder, and the two convenience subclasses
+        how = choose("hd%d_%d" % (depth, i), 4)
+        if how == 0:
+            return _change.CreateResource(proj.get_file(f)), ["create-resource-file", f]
+        if how == 1:
+            return _change.CreateResource(proj.get_folder("d")), ["create-resource-folder", "d"]
+        if how == 2:
+            return _change.CreateFolder(proj.root, "d"), ["create-folder", "d"]
+        return _change.CreateFile(proj.root, "b.py"), ["create-file", "b.py"]
     if kind == 3:
-        return _change.RemoveResource(proj.get_file(f))
-    cs = _change.ChangeSet(sym_str("hdsc%d" % i, 1, ranges=((97, 98),)), timestamp=sym_int("ht%d" % i, 0, 10))
+        return _change.RemoveResource(proj.get_file(f)), ["remove", f]
+    desc = sym_str("hdsc%d" % i, 1, ranges=((97, 98),))
+    ts = sym_int("ht%d" % i, 0, 10)
+    cs = _change.ChangeSet(desc, timestamp=ts)
+    subs = []
     for j in range(1 + choose("hcn%d" % i, 2)):
-        cs.add_change(_sym_change(proj, 10 * (i + 1) + j, depth + 1))
-    return cs
+        c, r = _sym_change(proj, 10 * (i + 1) + j, depth + 1)
+        cs.add_change(c)
+        subs.append(r)
+    return cs, ["set", desc, ts, subs]
+
+
+def _meaning(c):
+    """what performing the change would do, independent of how it is stored"""
+    if isinstance(c, _change.ChangeSet):
+        return ["set", c.description, c.time, [_meaning(x) for x in c.changes]]
+    if isinstance(c, _change.ChangeContents):
+        return ["contents", c.resource.path, c.resource.is_folder(), c.new_contents, c.old_contents]
+    if isinstance(c, _change.MoveResource):
+        return ["move", c.resource.path, c.resource.is_folder(), c.new_resource.path, c.new_resource.is_folder()]
+    if isinstance(c, _change.CreateResource):
+        return ["create", c.resource.path, c.resource.is_folder()]
+    if isinstance(c, _change.RemoveResource):
+        return ["remove", c.resource.path, c.resource.is_folder()]
+    return ["?", type(c).__name__]
 
 
 def make_history_run(p):
@@ -275,27 +304,38 @@ def make_history_run(p):
             proj = _rproject.Project(_ROOT, ropefolder=None, automatic_soa=False)
             to_data = _change.ChangeToData()
             NEST[0] = n == 1
-            changes = [_sym_change(proj, i) for i in range(n)]
+            built = [_sym_change(proj, i) for i in range(n)]
+            changes = [c for c, _r in built]
+            recipe = [r for _c, r in built]
             data = [to_data(c) for c in changes]
             ver = choose("ver", 2) + 1
             try:
                 enc = serializer.python_to_json(data, ver)
             except (ValueError, TypeError, AssertionError) as e:
-                return h.fail("history_encode_raised", "python_to_json of history data raised %s: %s" % (type(e).__name__, e), value=data, version=ver)
+                return h.fail("history_encode_raised", "python_to_json of history data raised %s: %s" % (type(e).__name__, e), value=data, version=ver, recipe=recipe)
             if not native(enc):
-                return h.fail("not_json_native", "encoded history is not JSON-native", value=data, version=ver)
+                return h.fail("history_not_json_native", "encoded history is not JSON-native", value=data, version=ver, recipe=recipe)
             m = core.ENGINE.fresh_model()
             cenc = concretize(enc, m)
             if json.loads(json.dumps(cenc)) != cenc:
-                return h.fail("json_text_roundtrip", "json text round trip changed the encoded history", model=m, value=data, version=ver)
+                return h.fail("history_json_text_roundtrip", "json text round trip changed the encoded history", model=m, value=data, version=ver, recipe=recipe)
             dec = serializer.json_to_python(enc)
             back = [_change.DataToChange(proj)(d) for d in dec]
             data2 = [to_data(c) for c in back]
             if not same(data2, data):
-                return h.fail("history_roundtrip_mismatch", "ChangeToData -> serializer -> DataToChange -> ChangeToData is not the identity", value=data, version=ver)
+                return h.fail("history_roundtrip_mismatch", "ChangeToData -> serializer -> DataToChange -> ChangeToData is not the identity", value=data, version=ver, recipe=recipe)
+            for c1, c2 in zip(changes, back):
+                if not same(_meaning(c1), _meaning(c2)):
+                    return h.fail("history_meaning_changed", "a change read back from the saved history does something else: %r became %r" % (_meaning(c1), _meaning(c2)), value=data, version=ver, recipe=recipe)
+            # a history that is read and written again (every later session does that) must stay the same
+            dec3 = serializer.json_to_python(serializer.python_to_json(data2, ver))
+            back3 = [_change.DataToChange(proj)(d) for d in dec3]
+            for c1, c3 in zip(changes, back3):
+                if not same(_meaning(c1), _meaning(c3)):
+                    return h.fail("history_meaning_changed", "after two save/load cycles a change does something else: %r became %r" % (_meaning(c1), _meaning(c3)), value=data, version=ver, recipe=recipe)
             for c1, c2 in zip(changes, back):
                 if type(c2).__name__ != ("CreateResource" if isinstance(c1, _change.CreateResource) else type(c1).__name__):
-                    return h.fail("history_kind_changed", "change kind %s became %s" % (type(c1).__name__, type(c2).__name__), value=data, version=ver)
+                    return h.fail("history_kind_changed", "change kind %s became %s" % (type(c1).__name__, type(c2).__name__), value=data, version=ver, recipe=recipe)
             return h.sample(value=data, version=ver)
         finally:
             undo()
